@@ -120,7 +120,7 @@ func checkCase(c Case, known func(string) bool) (f *evid.Failure, st stats) {
 		arg = want.Addr().Interface()
 	}
 	hasMap := pgen.HasKind(&c.Type, pgen.KMap)
-	topMsg := c.Type.Impl() == "message"
+	topMsg := pgen.StripPtr(&c.Type).Impl() == "message"
 
 	var size int
 	var ref []byte
@@ -307,7 +307,7 @@ func preClass(c Case) string {
 
 func knownClass(c Case, f *evid.Failure, st stats) string {
 	switch {
-	case f.Class == "count-mismatch" && c.Type.Impl() == "message" && st.failLen > st.size && st.failN == st.failLen:
+	case f.Class == "count-mismatch" && pgen.StripPtr(&c.Type).Impl() == "message" && st.failLen > st.size && st.failN == st.failLen:
 		// the count returned is len(b): only visible for len(b) > Size
 		return classTopMsgCount
 	case f.Class == "panic" && strings.Contains(f.Observed, "interface conversion") &&
@@ -436,6 +436,9 @@ func TestMarshalTo(t *testing.T) {
 				c.ByPtr = false
 			}
 			evid.Label("values")
+			if l := pgen.TopShapeLabel(&c.Type); l != "" {
+				evid.Label(l)
+			}
 			if c.CapEq {
 				evid.Label("dst.cap==len")
 			} else {
